@@ -124,6 +124,35 @@ def judge_point(case):
         return None
 
     both("hand_built_curve", hand, cmp_hand)
+
+    # a curve whose points mix both bases (first point in one basis, second in the other) against its all-mass-fraction twin
+    x2h = min(x + 0.05, 0.99)
+
+    def hand2(first_basis, second_basis):
+        return U.DiffusionCurve(mixture=mix, membrane_name="M", feed_temperature=t,
+                                feed_compositions=[U.composition(x, first_basis, mix), U.composition(x2h, second_basis, mix)],
+                                partial_fluxes=[(0.031, 0.0017), (0.052, 0.0009)], permeate_temperature=kw.get("permeate_temperature"),
+                                permeate_pressure=kw.get("permeate_pressure"))
+
+    st_w, cw_ = core.call(hand2, "weight", "weight")
+    for fb, sb_ in (("weight", "molar"), ("molar", "weight")):
+        st_m, cm_ = core.call(hand2, fb, sb_)
+        if st_w != "ok" or st_m != "ok":
+            continue
+        judged += 1
+        for name in ("get_separation_factor", "get_psi", "get_selectivity"):
+            for i in (0, 1):
+                (su, u), (sw_, w_) = core.call(lambda: float(getattr(cw_, name)[i])), core.call(lambda: float(getattr(cm_, name)[i]))
+                if su == "ok" and sw_ == "ok" and not eqv(u, w_, 1e-9):
+                    v.append(core.viol("C07/mixed_basis_curve/" + name, "point %d of a curve with points in (%s, %s) basis: %s = %r, all-mass-fraction twin %r" % (i, fb, sb_, name, w_, u)))
+                    break
+            else:
+                continue
+            break
+        for i in (0, 1):
+            for j in (0, 1):
+                if not eqv(float(cw_.permeances[i][j].value), float(cm_.permeances[i][j].value), 1e-10):
+                    v.append(core.viol("C07/mixed_basis_curve/permeances", "point %d: permeances differ between mixed-basis curve and its mass-fraction twin" % i))
     return core.result("judged" if judged else "not-judged:raised", nontrivial=judged > 0, digest=core.digest_of(case), viol=v, entry_points_compared=judged)
 
 
@@ -146,6 +175,23 @@ def judge_measurements(case):
             if not (eqv(a[i].x, b[i].x, 1e-12) and core.bit_eq(a[i].t, b[i].t) and eqv(a[i].p, b[i].p, 1e-12)):
                 v.append(core.viol("C07/measurements/" + name, "point %d: (x=%r, t=%r, p=%r) from the mass-fraction set, (x=%r, t=%r, p=%r) from the molar set" % (
                     i, a[i].x, a[i].t, a[i].p, b[i].x, b[i].t, b[i].p)))
+                break
+    # ... and again AFTER each non-ideal entry point has been given the molar set (none of them may rewrite it)
+    if not v:
+        mem = U.make_membrane(mix, 1e-2, 1e-4, t_ref=333.15, ea1=25000.0, ea2=60000.0, curve_sets=[sets["molar"]])
+        pv = U.Pervaporation(membrane=mem, mixture=mix)
+        cond = U.make_conditions(mix, 0.05, 333.15, 50.0, 0.2, "weight", "vac", "none")
+        ref = M.from_diffusion_curves_second(sets["weight"])
+        for name, f in (("non_ideal_isothermal_process", lambda: pv.non_ideal_isothermal_process(conditions=cond, diffusion_curve_set=sets["molar"], number_of_steps=1, delta_hours=0.1)),
+                        ("non_ideal_non_isothermal_process", lambda: pv.non_ideal_non_isothermal_process(conditions=cond, diffusion_curve_set=sets["molar"], number_of_steps=1, delta_hours=0.1)),
+                        ("non_ideal_diffusion_curve", lambda: pv.non_ideal_diffusion_curve(diffusion_curve_set=sets["molar"], feed_temperature=333.15,
+                                                                                           initial_feed_composition=U.Composition(p=0.2, type="weight"), delta_composition=0.01, number_of_steps=1))):
+            core.call(f)
+            b2 = M.from_diffusion_curves_second(sets["molar"])
+            n += len(b2)
+            if len(b2) != len(ref) or not all(eqv(ref[i].x, b2[i].x, 1e-12) and eqv(ref[i].p, b2[i].p, 1e-12) for i in range(len(ref))):
+                v.append(core.viol("C07/measurements/after_" + name, "measurement points extracted from the molar set after it was passed to %s differ from those of the mass-fraction set (first x: %r vs %r)" % (
+                    name, b2[0].x if len(b2) else None, ref[0].x)))
                 break
     return core.result("judged", digest=core.digest_of(case), viol=v, points_compared=n)
 
